@@ -11,6 +11,9 @@ func vc15Quads() []vc15Quad {
 		{0, 0, 23976 * s, 25000 * s, 3125, 2997},            // 25/23.976
 		{0, 0, 25000 * s, 23976 * s, 2997, 3125},            // 23.976/25
 		{0, 0, 2997 * s, 3000 * s, 1000, 999},               // 30/29.97
+		// reference points late in a long programme and 39 ms apart, odd nanosecond values: any formula that subtracts
+		// two products of that size loses the intercept
+		{21*h + 123456789, 22*h + 987654321, 21*h + 123456789 + 2997*13000, 22*h + 987654321 + 3125*13000, 3125, 2997},
 		{1 * s, 3 * s, 3 * s, 5 * s, 1, 1},                  // slope 1, offset
 		{0, 5 * s, 2 * h, 5*s + h, 1, 2},                    // slope 1/2
 		{10 * s, 0, 20 * s, 20 * s, 2, 1},                   // slope 2
@@ -25,7 +28,7 @@ func vc15Quads() []vc15Quad {
 func VH_C15_Concrete() {
 	vmode("int")
 	qs := vc15Quads()
-	q := qs[choose(vbound("quadruples", 5, len(qs)))]
+	q := qs[choose(vbound("quadruples", 6, len(qs)))]
 	t1 := nondetInt64(0, 24*3600*1000000000)
 	t2 := nondetInt64(0, 24*3600*1000000000)
 	vassume(t1 <= t2)
